@@ -90,7 +90,9 @@ def splitOnCommas (t : List Char) : List (List Char) := splitCommasGo t [] 0 []
 
 inductive ParamDiag
   | order (name : List Char) | badName (name : List Char) | keyword (name : List Char) | duplicate (name : List Char)
-  | emptyDefault (name : List Char)
+  | emptyDefault (name : List Char) | badDefault (name : List Char)
+  /-- the table of CPython's answers has none for this default (model-side outcome only) -/
+  | oracleMiss (default : List Char)
   deriving Repr, DecidableEq
 
 def isIdStartA (c : Char) : Bool := c.isAlpha || c == '_'
@@ -111,11 +113,15 @@ structure Param where
   default : Option (List Char)
   deriving Repr, DecidableEq
 
-def parseParamsGo : List (List Char) → Bool → List (List Char) → List Param → PyM (Except ParamDiag (List Param))
+/-- is the default a Python expression?  `some true` / `some false` = `ast.parse(default, mode="eval")` succeeds / raises;
+`none` = no answer recorded -/
+abbrev ExprOracle := List Char → Option Bool
+
+def parseParamsGo (ex : ExprOracle) : List (List Char) → Bool → List (List Char) → List Param → PyM (Except ParamDiag (List Param))
   | [], _, _, acc => .ok (.ok acc.reverse)
   | part :: rest, seenOpt, names, acc =>
     let part := stripL part
-    if part.isEmpty then parseParamsGo rest seenOpt names acc
+    if part.isEmpty then parseParamsGo ex rest seenOpt names acc
     else do
       let (name, dflt, seenOpt', orderErr) ←
         if part.contains '=' then do
@@ -123,14 +129,16 @@ def parseParamsGo : List (List Char) → Bool → List (List Char) → List Para
           pure (stripL (part.take e), some (stripL (part.drop (e + 1))), true, false)
         else pure (part, (none : Option (List Char)), seenOpt, seenOpt)
       if dflt == some [] then .ok (.error (.emptyDefault name))
+      else if (dflt.bind ex) == some false then .ok (.error (.badDefault name))
+      else if dflt.isSome && (dflt.bind ex).isNone then .ok (.error (.oracleMiss (dflt.getD [])))
       else if orderErr then .ok (.error (.order name))
       else if !isIdentifierA name then .ok (.error (.badName name))
       else if pyKeywords.contains (String.ofList name) then .ok (.error (.keyword name))
       else if names.contains name then .ok (.error (.duplicate name))
-      else parseParamsGo rest seenOpt' (name :: names) ({ name := name, default := dflt } :: acc)
+      else parseParamsGo ex rest seenOpt' (name :: names) ({ name := name, default := dflt } :: acc)
 
-def parsePassageParams (s : List Char) : PyM (Except ParamDiag (List Param)) :=
-  if s.isEmpty then .ok (.ok []) else parseParamsGo (splitOnCommas s) false [] []
+def parsePassageParams (ex : ExprOracle) (s : List Char) : PyM (Except ParamDiag (List Param)) :=
+  if s.isEmpty then .ok (.ok []) else parseParamsGo ex (splitOnCommas s) false [] []
 
 /-! ## `validate_passage_name` -/
 
